@@ -10,6 +10,10 @@ GUARD = "INTEL_ISA_L_VERIF"
 NCPU = os.cpu_count() or 4
 
 SAN = "-fsanitize=address,bounds -fno-sanitize-recover=all -fno-omit-frame-pointer -g"
+# harness only: the engines leave monitored calls by siglongjmp from a signal handler (fault trap, watchdog); gcc's use-after-scope
+# poisoning of loop-body variables around sigsetjmp then reports false "stack-use-after-scope" in the *harness* (seen once in
+# eng_thr.c mode_prefill).  The library objects keep the full instrumentation.
+SAN_HARNESS = SAN + " -fno-sanitize-address-use-after-scope"
 TSAN = "-fsanitize=thread -fno-omit-frame-pointer -g"
 BASE_CFLAGS = "-Wall -fstack-protector -D_FORTIFY_SOURCE=2"
 
@@ -17,8 +21,8 @@ BASE_CFLAGS = "-Wall -fstack-protector -D_FORTIFY_SOURCE=2"
 TAGS = {
     "asm":        dict(mk=[], hc="", d=[]),
     "asm-assert": dict(mk=["lib_debug=1", "DEBUG=-g"], hc="", d=[]),
-    "asm-asan":   dict(mk=["CFLAGS_=%s %s" % (BASE_CFLAGS, SAN)], hc=SAN, d=[]),
-    "c-asan":     dict(mk=["arch=noarch", "CFLAGS_noarch=%s" % SAN], hc=SAN, d=["V_NOARCH"]),
+    "asm-asan":   dict(mk=["CFLAGS_=%s %s" % (BASE_CFLAGS, SAN)], hc=SAN_HARNESS, d=[]),
+    "c-asan":     dict(mk=["arch=noarch", "CFLAGS_noarch=%s" % SAN], hc=SAN_HARNESS, d=["V_NOARCH"]),
     "c":          dict(mk=["arch=noarch"], hc="", d=["V_NOARCH"]),
     "c-tsan":     dict(mk=["arch=noarch", "CFLAGS_noarch=%s" % TSAN], hc=TSAN, d=["V_NOARCH"]),
     "hist8k":     dict(mk=["D=IGZIP_HIST_SIZE=8*1024"], hc="", d=["IGZIP_HIST_SIZE=8*1024"]),
